@@ -39,7 +39,7 @@ def load(progs_list, uid_base=0):
         ld.prog = pr
         ld.uid = str(uid_base + i)
         ld.w, ld.callees, ld.holder = grammar.target(batch, pr, ld.uid)
-        name = ('K%s' if pr.route == 'method' else 'W%s') % ld.uid
+        name = ('K%s' if pr.route in ('method', 'method_default') else 'W%s') % ld.uid
         ld.module = batch.module_of(name)
         ld.batch = batch
         out.append(ld)
@@ -56,7 +56,7 @@ def retrieve(ld):
 
 def own_func(ld):
     pr = ld.prog
-    if pr.route == 'method':
+    if pr.route in ('method', 'method_default'):
         return ld.w.__func__
     if pr.route == 'param':
         return ld.w.func
@@ -100,7 +100,7 @@ def expected(ld):
         if not (uva or uvk):
             continue
         decls.append((j, cs, uva, uvk, hva, hvk))
-    if pr.context == 'ifelse_unres':
+    if pr.context == 'ifelse_unres' or pr.route == 'method_default':
         return [pl], 'unresolvable-callee'
     if not decls:
         return [pl], 'nothing-forwarded'
@@ -186,7 +186,7 @@ def hidden_choices(ld):
 def runs_somehow(ld, n, K):
     """Does the call succeed for some branch-independent choice of the hidden arguments?  For two-branch programs
     both branches must succeed (FLAG True and False)."""
-    flags = (True, False) if ld.prog.context in ('ifelse', 'ifelse_unres') else (True,)
+    flags = (True, False) if ld.prog.context in grammar.TWO_BRANCH_CONTEXTS else (True,)
     mod = ld.module
     try:
         for fl in flags:
